@@ -348,7 +348,7 @@ def score_invariant3(scls):
     return True
   f = scls.methods.get('__post_init__')
   if f is None:
-    return None if au.class_delegations(None, scls) else False
+    return None if au.class_delegations(SCORE_REPO[0], scls) else False
   if au.delegations(SCORE_REPO[0], f):
     return None         # hands the object to code that is not followed: the rejection may live there
   mentions = any(isinstance(y, ast.Attribute) and y.attr in ('x', '_x') for y in ast.walk(f.node))
@@ -578,8 +578,9 @@ def r1d_greedy_keys(repo, rep):
       for call in au.calls_in(n.ast):
         if isinstance(call.func, ast.Attribute) and isinstance(call.func.value, ast.Name) and call.func.value.id in (T | C) and call.func.attr in ('pop', 'clear', 'popitem', 'update', 'setdefault'):
           others.append(call)
-      if isinstance(n.ast, ast.Delete):
-        others.append(n.ast)
+      if isinstance(n.ast, ast.Delete) and any(isinstance(t_, ast.Subscript) and isinstance(t_.value, ast.Name) and t_.value.id in (T | C)
+                                               or isinstance(t_, ast.Name) and t_.id in (T | C) for t_ in n.ast.targets):
+        others.append(n.ast)        # del table[key] / del table  (a `del` of a plain temporary is not a key removal)
   rep.check(not others, 'R1d/dict-keys', 'no key is removed inside the loop', f.qualname, '; '.join(norm(o)[:40] for o in others),
             'keys are removed from the per-size tables inside the loop (%s)' % '; '.join(norm(o)[:40] for o in others), f.loc(others[0]) if others else f.loc(w))
   # after the loop: reads in `for key in T` of C[key]; pops must use a default and remove from T no later than from C
